@@ -81,7 +81,11 @@ def run(P, rep, tier):
                        'plus who-may-call facts for the macro table over all units, plus parse_args interpreted on command lines whose -D/-U word is known only up to its spelling class '
                        '(all other characters symbolic). Decides the premises of the textbook '
                        'open-addressing argument (claim only after absence, lookups pass tombstones, delete writes the sentinel, '
-                       'used accounting, watermarks, last write wins); does not run any history.')
+                       'used accounting, watermarks, last write wins); does not run any history. Round 6 adds the layers around the tables: the operations the macro table sees are '
+                       'the #define/#undef lines of the source (R17.12: flags of the token after an empty expansion, replacement results are not directives, dispatcher arms, '
+                       'read_macro_definition - C09 rules re-issued plus the arms explored on `# define M` / `# undef M`), an #include answered from a memo table suppresses no directive '
+                       '(R17.13: C10 R10.3 and the guard recogniser re-issued), and the parser\'s identifier/tag tables are per-scope dictionaries (R17.14: def-use facts over parse.c - '
+                       'which scope a table expression denotes, which locals hold the answer of a chain walk, stores through them - plus C03 R03.5 re-issued).')
     rep.assumptions += ['calloc succeeds', 'probe loops are analysed for 0..3 generic iterations; the facts checked are per-iteration facts',
                         'command-line words other than the -D/-U option word are arbitrary strings; the word after a detached -D/-U exists (the pre-scan of parse_args rejects the line otherwise)',
                         'fnv_hash is a pure function of the key bytes']
@@ -299,24 +303,21 @@ def r1714(P, rep):
         b = S.bindings(f)
         if not b:
             continue
-        st = {}
-        for vid, how, n in S.stores_through(f, b):
-            st.setdefault(vid, []).append((how, n))
-        for vid, (k, field, src) in b.items():
+        written = set()
+        for vid, how, n, (k, field, src) in S.binding_stores(f):
+            written.add((vid, src))
             ks = resolve(f, k)
-            stores = st.get(vid, [])
             if 'outer' in ks:
-                if not stores:
-                    rep.ob('R17.14', '%s:%s:%s-binding-answered-by-%s-only-read' % (U2, f, field, src), True, '', where=where(S._decl[f][vid]))
-                for how, n in stores:
-                    rep.ob('R17.14', '%s:%s:%s-binding-answered-by-%s-written/%s' % (U2, f, field, src, how), False,
-                           'the `%s` binding that %s answered (found by walking the scope chain, so possibly the binding of an ENCLOSING scope) is written in place (%s): a declaration in the current scope then writes through into the enclosing scope\'s table entry - `struct T;` at file scope, `struct T { char c[3]; };` inside a block completes the file-scope T with the block\'s layout, and the binding does not disappear when the block is left' % (field, src, how),
-                           where=where(n))
+                rep.ob('R17.14', '%s:%s:%s-binding-answered-by-%s-written/%s' % (U2, f, field, src, how), False,
+                       'the `%s` binding that %s answered (found by walking the scope chain, so possibly the binding of an ENCLOSING scope) is written in place (%s): a declaration in the current scope then writes through into the enclosing scope\'s table entry - `struct T;` at file scope, `struct T { char c[3]; };` inside a block completes the file-scope T with the block\'s layout, and the binding does not disappear when the block is left' % (field, src, how),
+                       where=where(n))
             elif ks == {'inner'}:
-                for how, n in stores:
-                    rep.ob('R17.14', '%s:%s:%s-binding-of-the-current-scope-replaced-in-place/%s' % (U2, f, field, how), True, '', where=where(n))
-            elif stores:
-                rep.undecided('R17.14', '%s:%s:%s-binding-answered-by-%s' % (U2, f, field, src), 'a binding is written in place and the analysis cannot tell which scope\'s table answered it', where=where(stores[0][1]))
+                rep.ob('R17.14', '%s:%s:%s-binding-of-the-current-scope-replaced-in-place/%s' % (U2, f, field, how), True, '', where=where(n))
+            else:
+                rep.undecided('R17.14', '%s:%s:%s-binding-answered-by-%s' % (U2, f, field, src), 'a binding is written in place and the analysis cannot tell which scope\'s table answered it', where=where(n))
+        for vid, (k, field, src) in b.items():
+            if (vid, src) not in written and 'outer' in resolve(f, k):
+                rep.ob('R17.14', '%s:%s:%s-binding-answered-by-%s-only-read' % (U2, f, field, src), True, '', where=where(S._decl[f][vid]))
     if nput < 2 or nget < 2:
         rep.undecided('R17.14', '%s:scope-tables' % U2, 'only %d insertion(s) into / %d lookup(s) in a table of a Scope record found: the scope tables are not recognised any more' % (nput, nget))
     sub = Report('C03')
